@@ -1,6 +1,7 @@
 """Shared by the properties decided over M-ENGINE stage 2 (records, reference counts, KeyCount, value cell, journal flags,
 follower deferral): C10, the engine part of C15, the records part of C17, the push side of C07."""
 import json, os
+import vlib
 from props import engine_common
 
 ENGINE2_FILES = ["zz_verif_engine2_test.go", "zz_verif_engine2_monitor_test.go", "zz_verif_engine_test.go",
@@ -22,12 +23,54 @@ def classify_engine2(op, impl):
     return None
 
 
+CORPUS = os.path.join(vlib.VERIF, "corpus", "engine2.ops")   # op lines that exposed past failures, replayed first in every run
+
+
+def _check_outdir(ctx, outdir, mode, prefixes, what):
+    """Compare one harness output directory with the Lean driver (replies, snapshots, journal), look for ABS-MISMATCH (the driver's
+    stage-1 cross-check), collect monitors + statistics."""
+    dis = ctx.diff(outdir, mode, classify=classify_engine2)
+    seen = engine_common.read_monitor(ctx, outdir, mode, prefixes)
+    sp = os.path.join(outdir, mode + ".stats")
+    if os.path.exists(sp):
+        dist = ctx.cov.setdefault("distribution", {})
+        for k, v in json.load(open(sp)).items():
+            dist[k] = dist.get(k, 0) + v
+    ctx.cov.setdefault("monitor_signatures_seen", {}).update(seen)
+    if dis:
+        d = dis[0]
+        first = engine_common.first_divergence(d[2], d[3])
+        ctx.broken.append({"kind": "correspondence", "name": f"M-ENGINE stage 2 vs real LockDB ({what})",
+                           "detail": f"{len(dis)} of the sequences disagree; first: {first} ops={d[1][:1500]}"})
+        ctx.cov.setdefault("disagreements", []).append({"op": d[1], "impl": d[2], "model": d[3]})   # untruncated
+    # stage-1 / stage-2 cross-check inside the driver
+    mp = os.path.join(outdir, mode + ".model")
+    if os.path.exists(mp):
+        model = open(mp).read().split("\n")
+        bad = [(i, l) for i, l in enumerate(model) if "ABS-MISMATCH" in l]
+        ctx.cov["abs_crosscheck_lines"] = ctx.cov.get("abs_crosscheck_lines", 0) + sum(1 for l in model if l)
+        if bad:
+            opsl = open(os.path.join(outdir, mode + ".ops")).read().split("\n")
+            i, l = bad[0]
+            k = next((j for j, o in enumerate(l.split(";")) if "ABS-MISMATCH" in o), -1)
+            repro = ";".join(opsl[i].split(";")[:k + 1])    # the ops up to the one that differs reproduce it
+            ctx.broken.append({"kind": "correspondence", "name": f"abs(stage 2) vs stage 1 (driver cross-check, {what})",
+                               "detail": f"{len(bad)} sequences print ABS-MISMATCH; first at op#{k} of: {opsl[i][:1500]}"})
+            ctx.cov.setdefault("abs_mismatch_repro", []).append(repro)                                # untruncated
+    return dis
+
+
 def run_engine2(ctx, prefixes, n_quick=3000, n_thorough=40000, ops=40, extra=None):
-    """Build the stage-2 harness, run it, compare with the Lean driver (incl. the stage-1 cross-check: no ABS-MISMATCH may appear),
-    collect the monitors whose signature starts with one of `prefixes`."""
+    """Build the stage-2 harness, replay the corpus, run the random sequences, compare with the Lean driver (incl. the stage-1
+    cross-check: no ABS-MISMATCH may appear), collect the monitors whose signature starts with one of `prefixes`."""
     exe = ctx.build_harness("server", only=ENGINE2_FILES)
     if not exe:
         return
+    if os.path.exists(CORPUS):
+        outdir = ctx.run_harness(exe, "engine2-replay", 1, extra={"VERIF_REPLAY": CORPUS})
+        if outdir:
+            _check_outdir(ctx, outdir, "engine2-replay", prefixes, "corpus replay")
+            ctx.cov["corpus_lines_replayed"] = sum(1 for l in open(CORPUS) if l.startswith("engine2 "))
     mode = "engine2"
     n = n_quick if ctx.tier == "quick" else n_thorough
     seeds = [ctx.seed] if ctx.tier == "quick" else [ctx.seed + i for i in range(4)]
@@ -37,31 +80,7 @@ def run_engine2(ctx, prefixes, n_quick=3000, n_thorough=40000, ops=40, extra=Non
         outdir = ctx.run_harness(exe, mode, n if ctx.tier == "quick" else n // len(seeds), seed=sd, extra=env, timeout=1500)
         if not outdir:
             continue
-        dis = ctx.diff(outdir, mode, classify=classify_engine2)
-        seen = engine_common.read_monitor(ctx, outdir, mode, prefixes)
-        sp = os.path.join(outdir, mode + ".stats")
-        if os.path.exists(sp):
-            dist = ctx.cov.setdefault("distribution", {})
-            for k, v in json.load(open(sp)).items():
-                dist[k] = dist.get(k, 0) + v
-        ctx.cov.setdefault("monitor_signatures_seen", {}).update(seen)
-        if dis:
-            d = dis[0]
-            first = engine_common.first_divergence(d[2], d[3])
-            ctx.broken.append({"kind": "correspondence", "name": "M-ENGINE stage 2 vs real LockDB (E-seq)",
-                               "detail": f"{len(dis)} of the sequences disagree; first: {first} ops={d[1][:1500]}"})
-            ctx.cov.setdefault("disagreements", []).append({"op": d[1], "impl": d[2], "model": d[3]})
-        # stage-1 / stage-2 cross-check inside the driver
-        mp = os.path.join(outdir, mode + ".model")
-        if os.path.exists(mp):
-            bad = [(i, l) for i, l in enumerate(open(mp).read().split("\n")) if "ABS-MISMATCH" in l]
-            ctx.cov["abs_crosscheck_lines"] = ctx.cov.get("abs_crosscheck_lines", 0) + sum(1 for _ in open(mp))
-            if bad:
-                opsl = open(os.path.join(outdir, mode + ".ops")).read().split("\n")
-                i, l = bad[0]
-                k = next((j for j, o in enumerate(l.split(";")) if "ABS-MISMATCH" in o), -1)
-                ctx.broken.append({"kind": "correspondence", "name": "abs(stage 2) vs stage 1 (driver cross-check)",
-                                   "detail": f"{len(bad)} sequences print ABS-MISMATCH; first at op#{k} of: {opsl[i][:1500]}"})
+        _check_outdir(ctx, outdir, mode, prefixes, "E-seq")
 
 
 def run_c15_engine(ctx):
